@@ -481,10 +481,17 @@ fn with_cut(
             ops.push(json!({"ev": "fs", "op": op}));
         }
     }
-    line["ops"] = json!(ops);
     if line.get("cut_at").is_none() {
         line["cut_at"] = json!(["none"]);
     }
+    // The code reported an error although nothing was injected: the
+    // mutation behind the last fault point is the one that failed.
+    if !fired && matches!(res, Outcome::Ok(Err(_)))
+        && let Some(last) = ops.last_mut()
+    {
+        last["ev"] = json!("fsfail");
+    }
+    line["ops"] = json!(ops);
     let res = step(res);
     let wres = match &res {
         StepResult::Ok(()) => "ok",
